@@ -116,6 +116,18 @@ pub fn worker_main(args: &[String]) -> i32 {
             let _ = o.flush();
         }
         let case = engines::gen_case(&prop, seed, idx, tier);
+        if let Some(c) = case.ops.iter().find_map(|o| match o {
+            crate::model::Op::Run { cfg, .. } => Some(cfg.console),
+            _ => None,
+        }) {
+            stats.count(match c {
+                0 => "config.console.quiet",
+                1 => "config.console.normal",
+                2 => "config.console.verbose",
+                3 => "config.console.normal_stderr_full",
+                _ => "config.console.verbose_stderr_full",
+            });
+        }
         let mut ctx = Ctx {
             env: &env,
             stats: &mut stats,
